@@ -76,8 +76,7 @@ def run(ctx, chk):
                         if "buffer" in names and "buffer_size" in names:
                             BUF, SIZE = ("arg", names.index("buffer")), ("arg", names.index("buffer_size"))
                             w = dst[3][0]
-                            ok = dst[1] == BUF and any(t[0] == "icmp" and t[1] == "uge" and t[3] == n_ and truth and t[2] == ("op", "sub", "i64", SIZE, w)
-                                                       for t, truth, _ in pa.facts[:e.nfacts])
+                            ok = dst[1] == BUF and pa.st.rel_ge(("op", "sub", "i64", SIZE, w), n_, upto=e.nfacts)
                             why = "serializer window: destination buffer+w guarded by buffer_size - w >= length: %s" % ok
                     chk.ob("C01.memcpy", "%s path %d: memcpy" % (f.name, k), ok, e.ins.loc(), fn=f.name, key="%s:memcpy:%d" % (f.name, e.ins.id),
                            detail="" if ok else (why or "destination %s is neither a fresh block nor the serializer window" % DR.fmt_term(dst)),
